@@ -17,12 +17,98 @@ package schema
 //@   assigns nothing
 
 // ---------------------------------------------------------------------------------------------
-// C15: compatibility of scalar kinds
+// Verdict names. These abstract functions name what an operation of a (possibly unknown) schema
+// returns, so that a container can say "accepted exactly when the child accepts". They are only ever
+// introduced by "names" clauses (assumed at call sites, never checked).
+// ---------------------------------------------------------------------------------------------
+
+//@ abstract unserOK(t Type, d any) bool
+//@ abstract unserV(t Type, d any) any
+//@ abstract validOK(t Type, d any) bool
+//@ abstract serOK(t Type, d any) bool
+//@ abstract serV(t Type, d any) any
+//@ abstract compatOK(t Type, d any) bool
+//@ abstract objID(o Object) string
+//@ abstract objIDUnenforced(o Object) bool
+//@ abstract objProps(o Object) map[string]*PropertySchema
+
+//@ abstract dispName(d Display) *string
+//@ interface Display.Name(this) -> res
+//@   names res == dispName(this)
+//@   assigns nothing
+//@ interface Type.ValidateCompatibility(this, typeOrData) -> err
+//@   names (err == nil) == compatOK(this, typeOrData)
+//@ interface Object.ID(this) -> res
+//@   names res == objID(this)
+//@   assigns nothing
+//@ interface Object.IDUnenforced(this) -> res
+//@   names res == objIDUnenforced(this)
+//@   assigns nothing
+//@ interface Object.Properties(this) -> res
+//@   names res == objProps(this)
+//@   assigns nothing
+
+// ---------------------------------------------------------------------------------------------
+// C15: compatibility checking. Kind gates, range overlap with every nil/non-nil combination of the
+// four bounds, delegation through property / reference / scope, object rules.
 // ---------------------------------------------------------------------------------------------
 
 //@ spec disjointI(aMin *int64, aMax *int64, bMin *int64, bMax *int64) bool = (aMax != nil && bMin != nil && *bMin > *aMax) || (aMin != nil && bMax != nil && *bMax < *aMin)
+//@ spec disjointF(aMin *float64, aMax *float64, bMin *float64, bMax *float64) bool = (aMax != nil && bMin != nil && *bMin > *aMax) || (aMin != nil && bMax != nil && *bMax < *aMin)
 
 //@ func IntSchema.ValidateCompatibility(i, typeOrData) -> err
 //@   ensures implements(typeOrData, Type) && tid(typeOrData) != TypeIDInt && tid(typeOrData) != TypeIDIntEnum ==> err != nil
 //@   ensures implements(typeOrData, Type) && tid(typeOrData) == TypeIDIntEnum ==> err == nil
 //@   ensures typeOf(typeOrData) == type(*IntSchema) ==> ((err == nil) <==> !disjointI(i.MinValue, i.MaxValue, typeOrData.(*IntSchema).MinValue, typeOrData.(*IntSchema).MaxValue))
+
+//@ func FloatSchema.ValidateCompatibility(f, typeOrData) -> err
+//@   ensures implements(typeOrData, Type) && tid(typeOrData) != TypeIDFloat ==> err != nil
+//@   ensures typeOf(typeOrData) == type(*FloatSchema) ==> ((err == nil) <==> !disjointF(f.MinValue, f.MaxValue, typeOrData.(*FloatSchema).MinValue, typeOrData.(*FloatSchema).MaxValue))
+
+//@ func StringSchema.ValidateCompatibility(s, typeOrData) -> err
+//@   ensures implements(typeOrData, Type) && tid(typeOrData) != TypeIDString && tid(typeOrData) != TypeIDStringEnum ==> err != nil
+//@   ensures implements(typeOrData, Type) && tid(typeOrData) == TypeIDStringEnum ==> err == nil
+//@   ensures typeOf(typeOrData) == type(*StringSchema) ==> ((err == nil) <==> !disjointI(s.MinValue, s.MaxValue, typeOrData.(*StringSchema).MinValue, typeOrData.(*StringSchema).MaxValue))
+//@   ensures !implements(typeOrData, Type) && typeOf(typeOrData) != type(string) ==> err != nil
+
+//@ func BoolSchema.ValidateCompatibility(b, typeOrData) -> err
+//@   ensures implements(typeOrData, Type) ==> ((err == nil) <==> tid(typeOrData) == TypeIDBool)
+
+//@ func PatternSchema.ValidateCompatibility(p, typeOrData) -> err
+//@   ensures implements(typeOrData, Type) ==> ((err == nil) <==> tid(typeOrData) == TypeIDPattern)
+
+//@ func PropertySchema.ValidateCompatibility(p, typeOrData) -> err
+//@   ensures typeOf(typeOrData) == type(*PropertySchema) ==> ((err == nil) == compatOK(p.TypeValue, typeOrData.(*PropertySchema).TypeValue))
+//@   ensures typeOf(typeOrData) != type(*PropertySchema) ==> ((err == nil) == (compatOK(p.TypeValue, typeOrData) && !p.Disabled))
+
+//@ func RefSchema.ValidateCompatibility(r, typeOrData) -> err
+//@   requires r.referencedObjectCache != nil
+//@   ensures typeOf(typeOrData) == type(*RefSchema) ==> ((err == nil) == compatOK(r.referencedObjectCache, typeOrData.(*RefSchema).referencedObjectCache))
+//@   ensures typeOf(typeOrData) != type(*RefSchema) ==> ((err == nil) == compatOK(r.referencedObjectCache, typeOrData))
+
+//@ func ScopeSchema.RootObject(s) -> res
+//@   ensures res == s.ObjectsValue[s.RootValue] && res != nil
+//@   assigns nothing
+
+//@ func ObjectSchema.ValidateCompatibility(o, typeOrData) -> err
+//@   names (err == nil) == compatOK(o, typeOrData)
+
+//@ func ScopeSchema.ValidateCompatibility(s, typeOrData) -> err
+//@   ensures typeOf(typeOrData) == type(*ScopeSchema) ==> ((err == nil) == compatOK(s.ObjectsValue[s.RootValue], any(typeOrData.(*ScopeSchema).ObjectsValue[typeOrData.(*ScopeSchema).RootValue])))
+//@   ensures typeOf(typeOrData) != type(*ScopeSchema) ==> ((err == nil) == compatOK(s.ObjectsValue[s.RootValue], typeOrData))
+
+// ---------------------------------------------------------------------------------------------
+// Well-formedness of schema values (assumed for objects that exist when an operation starts: they
+// are established by the constructors, which are not verified, and preserved because operations do
+// not write schema memory - the frame obligations of C12).
+// ---------------------------------------------------------------------------------------------
+
+//@ invariant AbstractListSchema(l): l.ItemsValue != nil
+//@ invariant MapSchema(m): m.KeysValue != nil && m.ValuesValue != nil
+//@ invariant PropertySchema(p): p.TypeValue != nil
+//@ invariant StepOutputSchema(s): s.SchemaValue != nil
+//@ nonnil *PropertySchema
+//@ nonnil *ObjectSchema
+//@ nonnil *StepOutputSchema
+//@ nonnil Object
+//@ invariant ScopeSchema(s): s.RootValue in s.ObjectsValue && s.ObjectsValue[s.RootValue] != nil && s.ObjectsValue[s.RootValue].IDValue == s.RootValue
